@@ -2,6 +2,7 @@ package props
 
 import (
 	"bytes"
+	"encoding/base64"
 	"encoding/json"
 	"fmt"
 	"math/rand"
@@ -44,7 +45,18 @@ func c18Codec(r *core.Run, idx int, rng *rand.Rand) {
 			n = (1 + rng.Intn(4)) << 20 // up to 4 MiB
 		}
 		b = make([]byte, n)
-		switch rng.Intn(5) {
+		switch rng.Intn(7) {
+		case 5, 6:
+			// short texts of words (what compresses into one block with a code table of its own: the first bytes of the
+			// compressed stream then take many more values than for binary or repetitive input)
+			var sb strings.Builder
+			words := []string{"the", "quick", "brown", "fox", "login", "request", "user", "name", "Zürich", "session", "index", "of", "and", "value", "attribute", "a", "to", "is", "not", "x"}
+			for want := 30 + rng.Intn(370); sb.Len() < want; {
+				sb.WriteString(words[rng.Intn(len(words))])
+				sb.WriteByte(" \n,.;"[rng.Intn(5)])
+			}
+			b = []byte(sb.String())
+			n = len(b)
 		case 0: // all zero
 		case 1:
 			for i := range b {
@@ -78,6 +90,9 @@ func c18Codec(r *core.Run, idx int, rng *rand.Rand) {
 		if err != nil {
 			r.Violate(core.Violation{Clause: "encode_error", Class: "codec", Reason: err.Error(), Workload: wl, Index: idx})
 			continue
+		}
+		if raw, e2 := base64.StdEncoding.DecodeString(string(enc)); e2 == nil && len(raw) > 0 {
+			r.Seen("first_bytes_of_deflated_streams", fmt.Sprintf("%02x", raw[0]))
 		}
 		dec, err := samlxml.InflateAndDecode(samlxml.EncodingDeflate, true, string(enc))
 		r.Count("codec_round_trips", 1)
